@@ -66,7 +66,7 @@ def check_slice(rec, prefix, H, Hm, G, M, nodes, ctx, full=True):
         res &= common.check_stream(rec, prefix + '.wf.stream', H, Hm, ctx=ctx)
         battery = getattr(common, 'check_queries', None)
         if battery is not None:
-            res &= battery(rec, prefix + '.wf.q', H, Hm, nodes, ctx=ctx, probes=M.probes()[:-4], light=True)
+            res &= battery(rec, prefix + '.wf.q', H, Hm, nodes, ctx=ctx, probes=M.probes(), light=True)
     return res
 
 
